@@ -89,6 +89,9 @@ func cmdVerify(args []string) {
 		}
 		fmt.Printf("== %s: %d obligations, %d discharged, cover=%s, smt=%dB, solver=%.1fs\n", r.Fn, n, d, r.CoverAnswer, len(r.Background), r.SolverSecs)
 		for _, o := range r.Obls {
+			if d := os.Getenv("GOVC_DUMP_OB"); d != "" && o.Answer != "unsat" && strings.Contains(o.Name, d) {
+				os.WriteFile("/tmp/ob_"+sanitize(o.Kind)+".smt2", []byte(obQuery(r, o)), 0o644)
+			}
 			if o.Answer != "unsat" || *showAll {
 				fmt.Printf("   %-8s %-7s %s  [%s] %s\n", o.Kind, o.Answer, o.Name, o.Pos, o.Solver)
 				if o.Model != "" && *dumpSMT {
